@@ -876,7 +876,11 @@ def method_call(ev, state, node, name):
                 nty = hint if hint is not None else T.TList(x.ty)
                 recv = coerce(SymVal(recv.ty, recv.term, ('empty',)), nty)
             x = coerce(x, recv.ty[1])
-            write_ref(state, need_ref(), seq_append(recv, x.term))
+            from .values import seq_append_ax
+            if ctx.spec_mode or recv.meta == ('empty',) or z3.is_int_value(z3.simplify(seq_len(recv))):
+                write_ref(state, need_ref(), seq_append(recv, x.term))
+            else:
+                write_ref(state, need_ref(), seq_append_ax(state, recv, x.term))
             # a named mutable stored into a container becomes an alias of that element
             if isinstance(node.args[0], ast.Name) and T.is_mutable(x.ty) and not ctx.spec_mode:
                 r = need_ref()
